@@ -1596,3 +1596,32 @@ mod test {
     }
 }
 
+
+//------------ Verification hooks (C30) --------------------------------------
+
+#[cfg(routinator_verif)]
+impl Store {
+    /// Exposes `Store::ta_path`.
+    pub fn verif_ta_path(&self, uri: &TalUri) -> PathBuf {
+        self.ta_path(uri)
+    }
+
+    /// Exposes `Store::rrdp_repository_path`.
+    pub fn verif_rrdp_repository_path(&self, uri: &uri::Https) -> PathBuf {
+        self.rrdp_repository_path(uri)
+    }
+
+    /// Exposes `Repository::new` followed by `Repository::point_path`.
+    pub fn verif_point_path(
+        &self, rpki_notify: Option<&uri::Https>, manifest_uri: &uri::Rsync
+    ) -> PathBuf {
+        Repository::new(self, rpki_notify.cloned()).point_path(manifest_uri)
+    }
+
+    /// Runs `Store::dump_object` (writes `content` for `uri` below `dir`).
+    pub fn verif_dump_object(
+        &self, dir: &Path, uri: &uri::Rsync, content: &[u8]
+    ) -> Result<(), Failed> {
+        self.dump_object(dir, uri, content)
+    }
+}
